@@ -31,3 +31,65 @@ class uleb_parse:
 class struct_parse_real:
     """call sites execute the real body (seek, parse, exception wrapping): no hand-written model of it"""
     inline = True
+
+
+@contract("elftools/common/construct_utils.py", "SLEB128._parse", props=["C16"])
+class sleb_parse:
+    """DWARF v5 7.6: the unsigned accumulation of the 7-bit groups, minus 2^(7n) when bit 6 of the last
+    byte is set (two's complement sign extension to any width)"""
+    params = dict(self=Any, stream=Stream, context=Any)
+    ghost = {"$p": "stream.pos", "$B": "stream.B"}
+    loops = {0: dict(
+        invariant=["stream.pos == $p + $k", "shift == 7 * $k", "0 <= value", "value < pow2(shift)",
+                   "value == uleb_partial($B, $p, $k)",
+                   "forall(lambda j: $B[$p + j] >= 128, 0, $k)", "$p + $k <= max(old(stream.pos), len($B))"],
+        variant="len($B) + 1 - stream.pos")}
+    ensures = ["result == uleb_partial($B, $p, stream.pos - $p) - (pow2(7 * (stream.pos - $p)) if $B[stream.pos - 1] % 128 >= 64 else 0)",
+               "stream.pos > $p", "$B[stream.pos - 1] < 128",
+               "forall(lambda j: $B[$p + j] >= 128, 0, stream.pos - 1 - $p)",
+               "stream.pos <= len($B)"]
+    raises = {"FieldError": "forall(lambda j: stream.B[stream.pos + j] >= 128, 0, len(stream.B) - stream.pos)"}
+
+
+@contract("elftools/construct/core.py", "_read_stream", props=["C16"])
+class read_stream:
+    inline = True
+
+
+@contract("elftools/construct/core.py", "StaticField._parse", props=["C16"])
+class staticfield_parse:
+    inline = True
+
+
+@contract("elftools/common/construct_utils.py", "UBInt24._parse", props=["C16"])
+class ubint24_parse:
+    """DW_FORM_strx3 / addrx3: three bytes, most significant first"""
+    params = dict(self=Obj('UBInt24', length=Const(3)), stream=Stream, context=Any)
+    ghost = {"$p": "stream.pos", "$B": "stream.B"}
+    returns = Int
+    ensures = ["result == $B[$p] * 65536 + $B[$p + 1] * 256 + $B[$p + 2]", "stream.pos == $p + 3"]
+    raises = {"FieldError": "stream.pos + 3 > len(stream.B)"}
+
+
+@contract("elftools/common/construct_utils.py", "ULInt24._parse", props=["C16"])
+class ulint24_parse:
+    """three bytes, least significant first"""
+    params = dict(self=Obj('ULInt24', length=Const(3)), stream=Stream, context=Any)
+    ghost = {"$p": "stream.pos", "$B": "stream.B"}
+    returns = Int
+    ensures = ["result == $B[$p] + $B[$p + 1] * 256 + $B[$p + 2] * 65536", "stream.pos == $p + 3"]
+    raises = {"FieldError": "stream.pos + 3 > len(stream.B)"}
+
+
+@contract("elftools/dwarf/structs.py", "_InitialLengthAdapter._decode", props=["C16", "C04"])
+class initial_length_decode:
+    """DWARF v5 7.4: a first word below 0xfffffff0 is the 32-bit length; 0xffffffff announces the 64-bit
+    format and the length is the following 8-byte word; the reserved values 0xfffffff0-0xfffffffe are
+    rejected (the library also rejects 0xffffff00-0xffffffef, which no producer emits)"""
+    params = dict(self=Any, obj=Rec(first=U32, second=Opt(U64)), context=Rec())
+    returns = Int
+    ensures = ["obj.first < 0xffffff00 or obj.first == 0xffffffff",
+               "result == (obj.first if obj.first != 0xffffffff else obj.second)",
+               "context['is64'] == (obj.first == 0xffffffff)"]
+    modifies = ["context.is64"]
+    raises = {"ConstructError": "obj.first >= 0xffffff00 and obj.first != 0xffffffff"}
